@@ -73,9 +73,22 @@ def proof_audit(pid: str) -> dict:
                     bad.append(f"{f}: {m.group(0).strip()}")
     if bad:
         raise MachineryError("forbidden constructs in Lean sources: " + "; ".join(bad[:10]))
-    ns = re.search(r"^namespace\s+(\S+)", code, re.M)
-    prefix = (ns.group(1) + ".") if ns else ""
-    names = re.findall(r"^(?:protected\s+)?theorem\s+(\S+)", code, re.M)
+    # theorem names with their namespace (namespaces may be nested: `namespace A.B … namespace C … end C`)
+    stack: list[str] = []
+    names = []
+    for line in code.splitlines():
+        m = re.match(r"^namespace\s+(\S+)", line)
+        if m:
+            stack.append(m.group(1))
+            continue
+        m = re.match(r"^end\s+(\S+)", line)
+        if m and stack and stack[-1] == m.group(1):
+            stack.pop()
+            continue
+        m = re.match(r"^(?:protected\s+)?theorem\s+(\S+)", line)
+        if m:
+            names.append(".".join(stack + [m.group(1)]))
+    prefix = ""
     if not names:
         raise MachineryError(f"no theorems in {path}")
     audit = os.path.join(LEAN_DIR, f".audit_{pid}.lean")
